@@ -19,7 +19,7 @@ theorem evkAtLevel_rowLength (nQkey l : Nat) (evk : List (List (RPoly × RPoly))
 /-- the digit matrix of the plain path is the singleton-row matrix of the hoisted digits -/
 theorem decompose_eq_decomposeNTT (qsP : List Nat) (evk : List (List (RPoly × RPoly))) (c : RPoly)
     (hP : 1 ≤ qsP.length) (hrow : ∀ r ∈ evk, r.length = 1)
-    (hc : 1 ≤ c.qs.length) (hlen : c.qs.length ≤ evk.length) :
+    (hc : 1 ≤ c.qs.length) (hlen : qsP.length = 1 → c.qs.length ≤ evk.length) :
     decompose qsP 0 (evk.map List.length) c = (decomposeNTT qsP qsP.length c).map fun d => [d] := by
   simp only [decompose, decomposeNTT, List.map_map]
   by_cases h2 : qsP.length ≥ 2
@@ -31,14 +31,14 @@ theorem decompose_eq_decomposeNTT (qsP : List Nat) (evk : List (List (RPoly × R
     simp only [if_true, Nat.div_one, hl, if_neg (by decide : ¬ (1 = 0))]
     apply List.map_congr_left
     intro i hi
-    have hi' : i < evk.length := Nat.lt_of_lt_of_le (List.mem_range.mp hi) hlen
+    have hi' : i < evk.length := Nat.lt_of_lt_of_le (List.mem_range.mp hi) (hlen h1)
     have hmem : evk[i] ∈ evk := List.getElem_mem hi'
     simp [List.getElem?_eq_getElem hi', hrow _ hmem]
 
 /-- **hoisted_eq_plain** on the executable model -/
 theorem hoisted_eq_plain_R (qsP : List Nat) (nQkey : Nat) (evk : List (List (RPoly × RPoly)))
     (c : RPoly) (hP : 1 ≤ qsP.length) (hrow : ∀ r ∈ evk, r.length = 1)
-    (hc : 1 ≤ c.qs.length) (hlen : c.qs.length ≤ evk.length) :
+    (hc : 1 ≤ c.qs.length) (hlen : qsP.length = 1 → c.qs.length ≤ evk.length) :
     gadgetProductLazyR qsP 0 nQkey evk c = gadgetProductHoistedLazyR qsP qsP.length nQkey evk c := by
   simp only [gadgetProductLazyR, gadgetProductHoistedLazyR]
   rw [gadgetProductHoistedLazy_eq _ _ _ (evkAtLevel_rowLength nQkey _ evk hrow),
@@ -47,7 +47,7 @@ theorem hoisted_eq_plain_R (qsP : List Nat) (nQkey : Nat) (evk : List (List (RPo
 /-- hence also after `ModDown` -/
 theorem hoisted_eq_plain_modDown_R (qsP : List Nat) (nQkey : Nat) (evk : List (List (RPoly × RPoly)))
     (c : RPoly) (hP : 1 ≤ qsP.length) (hrow : ∀ r ∈ evk, r.length = 1)
-    (hc : 1 ≤ c.qs.length) (hlen : c.qs.length ≤ evk.length) :
+    (hc : 1 ≤ c.qs.length) (hlen : qsP.length = 1 → c.qs.length ≤ evk.length) :
     gadgetProductR qsP 0 nQkey evk c = gadgetProductHoistedR qsP qsP.length nQkey evk c := by
   simp only [gadgetProductR, gadgetProductHoistedR, hoisted_eq_plain_R qsP nQkey evk c hP hrow hc hlen]
 
